@@ -28,10 +28,10 @@ def run(tier: str, seed: int, replay=None) -> int:
         assume=[
             "queries are tree-shaped: every Attribute/Comparator/logical node object occurs once (node reuse is finding class K_sharednode, replayed from its witness)",
             "vocabulary modelled: variables over explicit domains, literals, attribute chains, ==,!=,<,<=,>,>=, contains/in_, and_, or_, not_, entity/set_of; "
-            "exists/for_all are covered by the theorems under the static side conditions wfq / ok TS / ok TC (Props/C01.v: C01_q_sound_complete); the proved fragment of every generated case is the flag case_in_F01 COMPUTED IN COQ (theorem C01_fragment_flag), not a Python predicate; indexing and method calls on attribute values are modelled as one attribute step (functions of the value); flatten, predicates (C12) and sub-queries are not modelled (findings there are replayed from recorded witnesses)",
+            "exists/for_all are covered by the theorems under the static side conditions wfq / ok TS / ok TC (Props/C01.v: C01_q_sound_complete); the proved fragment of every generated case is the flag case_in_F01 COMPUTED IN COQ (theorem C01_fragment_flag), not a Python predicate; indexing and method calls on attribute values are modelled as one attribute step (functions of the value); flatten and nested sub-queries used as operands / selected expressions have NO Coq model: every eighth generated case each is such a query (harness/eqlgen.py gen_flat_case / gen_subq_case), compared implementation vs the first-order Spec only (z = flatten(e) is a variable with the conjunct contains(e, z); z = an(entity(z0, c)) is a variable over z0's domain with the conjunct c), outside every proved fragment, any disagreement is a VIOLATION; predicates are C12, match is C11",
             "CPython generator protocol",
         ],
         rule=("seeded random queries (harness/eqlgen.py, profile c01): 1-3 variables over object / value-equal-twin / int domains of 0-4 "
               "elements (empty domains, duplicates, shared domains), conditions of depth <= 3 over comparisons, membership, set-equality "
               "of collections, object identity, and_/or_/not_; 1-3 selected expressions; compared as SETS of rows against the Spec "
-              "(and against the model). distinct = distinct (world, domains, query); non-trivial = has a condition and a non-empty answer set"))
+              "(and against the model); plus flatten and sub-query cases (Spec only). distinct = distinct (world, domains, query); non-trivial = has a condition and a non-empty answer set"))
